@@ -29,7 +29,7 @@ SHARDS = {"quick": 8, "thorough": 16}
 
 
 def gen_cases(tier, seed):
-    k = 1 if tier == "quick" else 40
+    k = 1 if tier == "quick" else 600
     cases = [{"kind": "primes", "i": i, "seed": seed} for i in range(4 * k)]
     cases += [{"kind": "halton-fn", "i": i, "seed": seed} for i in range(24 * k)]
     cases += [{"kind": "halton-sampler", "i": i, "seed": seed} for i in range(24 * k)]
